@@ -27,11 +27,13 @@ CLAIMED = {
              "algorithms for all block bytes, every legal block size and 1-2 channels (ima_wav_decode_ref, ima_aiff_decode_ref, ms_decode_ref); their tables are "
              "read out of the running library through crafted blocks and proved equal to the published ones; sampled correspondence (adversarial + random blocks, "
              "WAV/W64/AIFF-C files built around them) ties the lib-shaped decoders to the code. "
-             "IEEE serialisers (SfProps/C20Ieee.lean): the eight portable float32/double64 routines are modelled from the C; every normal bit pattern is read back as itself, "
-             "the writers produce the native bit string for every normal value outside the class |x| < 1e-30, which they flush to zero (full statement refuted by a proved "
-             "witness, known finding KF-C20-ieee-flush replayed every run); what the readers do with zeros, subnormals, Inf and NaN is stated exactly; ENDSWAP_16/32/64 are "
-             "involutions on every bit vector and reverse the byte string, psf_put_be*/psf_get_* round-trip. Correspondence: direct kernel calls and RAW float/double files with "
-             "SFC_TEST_IEEE_FLOAT_REPLACE (replace path vs native path vs model), boundary dictionary + 2^20 exponent-stratified patterns per routine (quick), 16-bit helpers exhaustive.",
+             "IEEE serialisers (SfProps/C20Ieee.lean): the eight portable float32/double64 routines are modelled from the C as repaired by three fix: commits; every finite bit pattern "
+             "(normal, subnormal, signed zero) is read back as itself, every normal value is written as its native bit string (full strength), the array paths replace_write/read "
+             "equal the native paths on whole buffers of normal values; the rules before the repairs (1e-30 flush with its class in bit terms, hidden bit for subnormals, sign of -0) "
+             "are kept as _old_rule theorems and their witnesses run as regressions; ENDSWAP_16/32/64 are involutions on every bit vector (Nat and BitVec definitions proved equal) and "
+             "reverse the byte string, psf_put_be*/psf_get_* round-trip in both directions for 16/32/64 bits. Correspondence: direct kernel calls, RAW float/double files with "
+             "SFC_TEST_IEEE_FLOAT_REPLACE (replace path vs native path vs model), the *_be_* routines also through AIFF PEAK chunks and the MAT4 sample-rate field; boundary dictionary + "
+             "2^20 exponent-stratified patterns per routine (quick), 16-bit helpers exhaustive.",
         technique="Lean 4 theorems over a hand-written model + exhaustive correspondence (tables extracted by execution)",
         design_ref="DESIGN.md §7 C20"),
     "C13": dict(
